@@ -96,12 +96,11 @@ def check_interleaved(case):
 
 def check_grid_roundtrip(case):
     cv = repo.mod("geodepy.convert")
-    T.grid_range_or_discard(case["east"], case["north"])
+    T.grid_predomain_or_discard(case)          # the domain is decided by the exact projection, not by the library's own answer
     got = T.call_grid2geo(cv, case, case["zone"], case["east"], case["north"], case["hemi"])
     if not is_seq(got, 4):
         raise Fail("grid2geo did not return a 4-tuple", observed=repr(got))
     lat, lon = got[0], got[1]
-    T.grid_domain_or_discard(case, lat, lon)
     c2 = dict(case)
     fwd = T.call_geo2grid(cv, c2, lat, lon)
     hemi, zone, east, north = fwd[0], fwd[1], fwd[2], fwd[3]
@@ -140,9 +139,8 @@ def check_mirror(case):
     if fn != 10000000.0:
         raise Discard()
     n = case["north"] if case["hemi"] == "north" else fn - case["north"]
-    T.grid_range_or_discard(case["east"], n)
+    T.grid_predomain_or_discard(case, north=n, hemi="north")
     a = T.call_grid2geo(cv, case, case["zone"], case["east"], n, "north")
-    T.grid_domain_or_discard(dict(case, north=n), a[0], a[1])
     b = T.call_grid2geo(cv, case, case["zone"], case["east"], 10000000.0 - n, "south")
     dlat = abs(a[0] + b[0])
     dlon = abs(a[1] - b[1])
@@ -159,9 +157,8 @@ def check_mirror(case):
 def check_standalone(case):
     cv = repo.mod("geodepy.convert")
     sa = standalone()
-    T.grid_range_or_discard(case["east"], case["north"])
+    T.grid_predomain_or_discard(dict(case, prj="utm", ell="grs80"), hemi="south")
     lib = cv.grid2geo(case["zone"], case["east"], case["north"], "south")
-    T.grid_domain_or_discard(case, lib[0], lib[1])
     got = sa.grid2geo(case["zone"], case["east"], case["north"])
     if not is_seq(got, 2):
         raise Fail("Standalone grid2geo did not return (lat, lon)", observed=repr(got))
@@ -190,9 +187,8 @@ def check_standalone_batch(case):
     sa = standalone()
     rows = []
     for i, r in enumerate(case["rows"]):
-        T.grid_range_or_discard(r["east"], r["north"])
+        T.grid_predomain_or_discard(dict(r, prj="utm", ell="grs80"), hemi="south")
         lib = cv.grid2geo(r["zone"], r["east"], r["north"], "south")
-        T.grid_domain_or_discard(dict(r, prj="utm", ell="grs80"), lib[0], lib[1])
         # point identifiers as users write them: not sorted, not necessarily unique, some with blanks or commas (quoted by csv)
         ids = case.get("ids") or []
         name = ids[i % len(ids)] if ids else "P%d" % i
